@@ -63,6 +63,9 @@ def run(ctx):  # noqa: C901, PLR0912, PLR0915
     from . import common
     # what the handle resolution finds is what the MDIB contains: no state of a removed descriptor stays behind in the tables
     common.index_lists_not_mutated_while_iterated(ctx, 'C20.R2')
+    common.string_readers_return_the_text(ctx, 'C20.R3')
+    # a handle names one thing: new_entity / mk_context_state refuse a handle that a context state or a descriptor already has
+    ctx.borrow('C10', {'C10.R5'}, 'C20.R2', contains=['new_entity', 'mk_context_state', 'unique handle indices'])
     # ------------------------------------------------------------------ R1 + R2 + R3
     n_loops = 0
     for q in (GS, CS):
